@@ -58,10 +58,12 @@ func (l *vpXListIt) Err() error  { return nil }
 
 func vpXInputs() ([][]vpXSample, []chunkenc.Iterator) { return vpXInputsK(3) }
 
-func vpXInputsK(kQuick int) ([][]vpXSample, []chunkenc.Iterator) {
+func vpXInputsK(kQuick int) ([][]vpXSample, []chunkenc.Iterator) { return vpXInputsKT(kQuick, 3) }
+
+func vpXInputsKT(kQuick, kThorough int) ([][]vpXSample, []chunkenc.Iterator) {
 	kHi, nHi := kQuick, 2
 	if vpThorough() {
-		kHi, nHi = 3, 3
+		kHi, nHi = kThorough, 3
 	}
 	k := vpShape("k", 1, kHi)
 	ins := make([][]vpXSample, k)
@@ -175,7 +177,7 @@ func vpH_C19_chain_reuse() {
 	for s := 0; s < steps; s++ {
 		it.Next()
 	}
-	ins, its := vpXInputsK(2)
+	ins, its := vpXInputsKT(2, 2) // thorough: 2 inputs of up to 3 samples (3 inputs ran past the wall budget)
 	it = ChainSampleIteratorFromIterators(it, its)
 	var out []vpXSample
 	var x int64
